@@ -461,7 +461,15 @@ def r_pickler_select(e, R):
             f"for type, reduce_func in {redp}.items(): self.register(type, reduce_func)", "job_reducers / result_reducers are silently ignored", e.loc(ini, ini.node))
     reset = lambda n: n.kind == "stmt" and isinstance(n.ast, ast.Assign) and isinstance(n.ast.targets[0], ast.Name) and n.ast.targets[0].id == redp
     SC.never(e, R, "R-PICKLER-SELECT", ini, "the queue has reducers", [(SC.name(redp), "some")], reset, "a reset of the reducers", "the queue's reducers are replaced by an empty mapping")
-    SC.must(e, R, "R-PICKLER-SELECT", ini, "the queue has no reducers", [(SC.name(redp), "none")], reset, "substitutes an empty mapping", "None.items() raises for every queue without reducers")
+    # without reducers the iteration over `<reducers>.items()` is never reached with None: an empty mapping is substituted first, or the
+    # registration loop is skipped
+    iters = [n for n in ig.nodes if n.kind == "for_iter" and any(n.ast is lp for lp in loops)]
+    resets = [n for n in ig.nodes if reset(n)]
+    bad_ = None
+    for it_ in iters:
+        bad_ = bad_ or ig.find_path(ig.entry, lambda x, it_=it_: x is it_, avoid=resets, use_exc=False, edge_ok=SC.Facts([(SC.name(redp), "none")]).edge_ok())
+    R.check(bool(iters) and bad_ is None, "R-PICKLER-SELECT", f"{ini.short}: without reducers, `.items()` is never evaluated on None", ini.short,
+            f"{redp} is None -> {{}} or no registration loop", "None.items() raises for every queue without reducers", e.loc(ini, ini.node), ig.fmt_path(bad_) if bad_ else None)
     has_dt = lambda x: isinstance(x, ast.Call) and isinstance(x.func, ast.Name) and x.func.id == "hasattr" and len(x.args) == 2 and isinstance(x.args[1], ast.Constant) \
         and x.args[1].value == "dispatch_table"
     own = lambda n: n.kind == "stmt" and isinstance(n.ast, ast.Assign) and any(isinstance(x, ast.Attribute) and x.attr == "dispatch_table" and isinstance(x.value, ast.Name)
@@ -544,6 +552,20 @@ def _has_call(e, cq):
     return e.pt.lookup_method(cq, "__call__") is not None
 
 
+def _flag_of_call_test(e, f, g, t):
+    """t tests a boolean flag that is set to True exactly under a test mentioning `__call__` (the explicit-loop spelling of
+    `any("__call__" in vars(k) for k in mro)`) and is False otherwise."""
+    if not isinstance(t.ast, ast.Name):
+        return False
+    defs = e.local_defs(f, t.ast.id)
+    if not defs or not all(isinstance(d, ast.Constant) and isinstance(d.value, bool) for d in defs) or {d.value for d in defs} != {True, False}:
+        return False
+    trues = [n for n in g.nodes if n.kind == "stmt" and isinstance(n.ast, ast.Assign) and isinstance(n.ast.targets[0], ast.Name) and n.ast.targets[0].id == t.ast.id
+             and isinstance(n.ast.value, ast.Constant) and n.ast.value.value is True]
+    call_tests = [x for x in g.nodes if x.kind == "test" and "__call__" in norm(x.ast)]
+    return bool(trues) and all(any(g.on_branch(n, ct, "T") for ct in call_tests) for n in trues)
+
+
 def r_wrap_dispatch(e, R):
     base, subs = _wrapper_classes(e)
     # (a) the instance path dispatches on callable()
@@ -614,7 +636,7 @@ def r_wrap_dispatch(e, R):
                 cls = {v[1] for v in e.pt.ev(pub, st.value) if v[0] == "class"}
                 for cn in pg.nodes_of(st):
                     for t in pg.nodes:
-                        if t.kind == "test" and "__call__" in norm(inline_locals(e, pub, t.ast)):
+                        if t.kind == "test" and ("__call__" in norm(inline_locals(e, pub, t.ast)) or _flag_of_call_test(e, pub, pg, t)):
                             for lab in ("T", "F"):
                                 if pg.on_branch(cn, t, lab):
                                     by_branch[lab] = cls
